@@ -9,6 +9,7 @@
 (c) every public constructor on every input kind.
 """
 import itertools
+import re
 
 import numpy
 
@@ -123,13 +124,18 @@ def triple_cases():
             step = 27 if len(mats) > 27 else len(mats)
             for i0 in range(0, len(mats), step):
                 out.append({"k": "triples", "D": D, "N": N, "i0": i0, "i1": min(len(mats), i0 + step)})
+            # names omitted (the default names are given), and the same under other naming options
+            for pre, omit in (("q", True), ("z", False), ("z", True), ("var", True), ("x_", False)):
+                out.append({"k": "triples", "D": D, "N": N, "i0": 0, "i1": min(len(mats), 9), "pre": pre, "omit": omit})
     return out
 
 
 def run_triples(case, R):
     D, N = case["D"], case["N"]
     mats = exps_matrices(D, N)[case["i0"]:case["i1"]]
-    names = ("q1", "q3")[:D]
+    pre, omit = case.get("pre", "q"), case.get("omit", False)
+    names = tuple(f"{pre}{i}" for i in ((1, 3) if not omit else (0, 1)))[:D]
+    naming = {} if pre == "q" else {"default_varname": pre, "varname_filter": re.escape(pre) + r"\d+"}
     coef_sets = [list(itertools.product(COEF0, repeat=N))]
     if N <= 2:
         coef_sets.append([tuple(numpy.array(c) for c in cs) for cs in itertools.product(COEF1, repeat=N)])
@@ -150,11 +156,12 @@ def run_triples(case, R):
                     sub = {"k": "triple1", "exps": [list(e) for e in exps],
                            "coefs": [numpy.asarray(c).tolist() for c in coefs], "names": list(names), "cfg": cfg}
                     tags = [f"rc={rc}", f"rn={rn}", "flags=" + ("explicit" if kw else "global"),
-                            "dup" if may_reject else "nodup"]
+                            "dup" if may_reject else "nodup", f"prefix={pre}", "names=omitted" if omit else "names=given"]
+                    sub = dict(sub, pre=pre, omit=omit)
                     try:
-                        with numpoly.global_options(**gl):
+                        with numpoly.global_options(**dict(gl, **naming)):
                             p = numpoly.polynomial_from_attributes(
-                                [list(e) for e in exps], [numpy.asarray(c) for c in coefs], names, **kw)
+                                [list(e) for e in exps], [numpy.asarray(c) for c in coefs], None if omit else names, **kw)
                     except Exception as err:  # noqa: BLE001
                         if may_reject:
                             R.stat("rejected_duplicates")
@@ -200,10 +207,12 @@ def run_triple1(case, R):
     gl = {}
     if cfg["glob"] is not None:
         gl = {"retain_coefficients": cfg["glob"][0], "retain_names": cfg["glob"][1]}
+    pre, omit = case.get("pre", "q"), case.get("omit", False)
+    naming = {} if pre == "q" else {"default_varname": pre, "varname_filter": re.escape(pre) + r"\d+"}
     R.tr()
     try:
-        with numpoly.global_options(**gl):
-            p = numpoly.polynomial_from_attributes([list(e) for e in exps], coefs, names, **kw)
+        with numpoly.global_options(**dict(gl, **naming)):
+            p = numpoly.polynomial_from_attributes([list(e) for e in exps], coefs, None if omit else names, **kw)
     except Exception as err:  # noqa: BLE001
         if not may_reject:
             R.fail("polynomial_from_attributes", "exception", f"{type(err).__name__}: {err}")
